@@ -150,6 +150,32 @@ func exploreCrashPoints(c *sim.Chain, rec *ev.Rec, end bool, tag string, maxRuns
 				w["keys"] = firstN(tgt.OuterKeys, 5)
 				rec.Violate("C15/crash-point/failed-step-left-writes-outside-its-branch/"+st.Caller, "writes of the failed step are visible on an enclosing context", w)
 			}
+			// a unit's failure stays the unit's: the wrapped steps that ENCLOSE it (the hook's own outer step, a sweep
+			// wrapped as a whole) committed in the recording run and must still commit, otherwise the work of all the
+			// other units of that sweep is dropped together with the failing one
+			if tgt != nil {
+				byID := map[int]*inject.Step{}
+				ordOf := map[int]int{}
+				n := 0
+				for _, x := range r.spy.Steps {
+					byID[x.ID] = x
+					if x.Wrapped {
+						ordOf[x.ID] = n
+						n++
+					}
+				}
+				for anc := byID[tgt.Parent]; anc != nil; anc = byID[anc.Parent] {
+					if !anc.Wrapped {
+						continue
+					}
+					rec.Eval(1)
+					rec.Count("enclosing_steps_checked_after_a_unit_failure", 1)
+					if o := ordOf[anc.ID]; o < len(steps) && steps[o].Written && steps[o].Caller == anc.Caller && !anc.Written {
+						w["enclosing_step_caller"] = anc.Caller
+						rec.Violate("C15/crash-point/unit-failure-dropped-the-enclosing-step/"+anc.Caller+"<-"+st.Caller, "a failure inside one unit made the enclosing wrapped step fail as well: the work of the other units of that step is dropped", w)
+					}
+				}
+			}
 			if ref == nil {
 				ref = r // k == 1: the step did nothing, everything else proceeded
 				continue
